@@ -23,17 +23,20 @@
 (* the lock holder), Inv_AtMostOne (at most one owner), deadlock freedom   *)
 (* (TLC deadlock check), Termination (weak fairness).                      *)
 (*                                                                         *)
-(* The code deviates from the rule "take the lock before touching the      *)
-(* cache or the policy" (docs/.../architecture.md) in named handler kinds: *)
-(*   NoLockKinds     the handler never takes the lock                      *)
-(*   PreAccessKinds  the handler looks up the cache and runs hooks before  *)
-(*                   taking it                                             *)
-(* With the faithful programs Inv_Mutex is violated; Inv_MutexLocking is   *)
-(* Inv_Mutex restricted to the kinds that are not listed in UnlockedKinds. *)
-(* The design check passes with UnlockedKinds = NoLockKinds \cup           *)
-(* PreAccessKinds and the engine shows, kind by kind, that removing a kind *)
-(* from UnlockedKinds makes TLC produce the Inv_Mutex counterexample, i.e. *)
-(* every named deviation is real and nothing else is excused.              *)
+(* Deviations of the code from the rule "take the lock before touching the *)
+(* cache or the policy" (docs/.../architecture.md) are expressed by named   *)
+(* constants:                                                              *)
+(*   NoLockKinds     kinds whose handler never takes the lock              *)
+(*   PreAccessKinds  kinds whose handler looks up the cache and runs hooks *)
+(*                   before taking it                                      *)
+(* Today both are empty.  Before /repo commit 06edfe4 (finding F-C15-1)    *)
+(* they were {StopPodSandbox, Synchronize} and {RemovePodSandbox}          *)
+(* (MC_Serialize: OldNoLockKinds, OldPreAccessKinds); with those programs  *)
+(* TLC reports Inv_Mutex violated, for all of them and for each kind       *)
+(* alone -- the engine re-checks this on every run.  Inv_MutexLocking is   *)
+(* Inv_Mutex restricted to the kinds not listed in UnlockedKinds, so that  *)
+(* a model with known deviations can still be checked for everything else; *)
+(* UnlockedKinds is empty today.                                           *)
 (*                                                                         *)
 (* Part 2, the pod-resource rendezvous (pkg/resmgr/cache/pod.go):          *)
 (* InsertPod starts an asynchronous fetch, GetPodResources waits for it.   *)
